@@ -1516,10 +1516,10 @@ Qed.
 Lemma run_step_ext rs rs' sep lang b v : rs_same_code rs rs' -> run_step rs sep lang b v = run_step rs' sep lang b v.
 Proof.
   intros E. unfold run_step. destruct (getf _ FLAG_TERMINATE); [reflexivity|]. cbv zeta.
-  destruct (op_split b) as [[op b1]|e|n]; try reflexivity.
+  destruct (op_split b) as [[op b1]|e|n]; [|reflexivity|reflexivity].
   assert (Hx : step_exec rs sep (eff_lang lang (v_st v)) op b1 (run_prelude v)
              = step_exec rs' sep (eff_lang lang (v_st v)) op b1 (run_prelude v)).
-  { unfold step_exec. destruct (parse_args op b1) as [[i b2]|e|n]; try reflexivity. apply exec_instr_ext. exact E. }
+  { unfold step_exec. destruct (parse_args op b1) as [[i b2]|e|n]; [apply exec_instr_ext; exact E|reflexivity|reflexivity]. }
   rewrite Hx. reflexivity.
 Qed.
 
@@ -1620,3 +1620,573 @@ Proof.
     | |- context [match ?s with SOk => _ | _ => _ end] => destruct s
     end; cbn [fst e_v]; try exact H0; try (rewrite H; exact H0).
 Qed.
+
+(* ---- Exec: the main run starts in the session language ---------------------------------- *)
+(* the configuration eng_exec_inner hands to the run loop *)
+Definition exec_start (c : config) (e : engine) : conf :=
+  let v := vset_st (e_v e) (set_code (v_st (e_v e)) []) in
+  (s_lang (v_st (e_v e)), s_code (v_st (e_v e)), v).
+
+Lemma eng_exec_inner_run fuel rs c e :
+  s_code (v_st (e_v e)) <> [] ->
+  let '(lang, code, v) := exec_start c e in
+  let '(v1, b, s) := run fuel rs (c_sep c) lang code v in
+  v_log (e_v (fst (fst (eng_exec_inner fuel rs c e)))) = v_log v1
+  /\ s_lang (v_st (e_v (fst (fst (eng_exec_inner fuel rs c e))))) = s_lang (v_st v1).
+Proof.
+  intros Hne. unfold exec_start, eng_exec_inner. cbv zeta.
+  destruct (s_code (v_st (e_v e))) as [|x code] eqn:Hc; [congruence|].
+  cbn [v_st vset_st s_lang set_code].
+  destruct (run fuel rs (c_sep c) _ (x :: code) _) as [[v1 b] s].
+  destruct s; try (cbn; auto; fail).
+  destruct (getf (v_st v1) FLAG_TERMINATE); [cbn; auto|].
+  unfold set_code_eng. cbn [e_v]. destruct b as [|y b]; [|cbn; auto].
+  destruct (getf (set_code (v_st v1) []) FLAG_DIRTY); cbn; auto.
+Qed.
+
+(* every function call of Exec's main run is made in the language the session has when the
+   calling instruction begins (or the session has none by then: K-C18-emptylang) *)
+Lemma eng_exec_inner_calls fuel rs c e :
+  s_code (v_st (e_v e)) <> [] ->
+  exists new, v_log (e_v (fst (fst (eng_exec_inner fuel rs c e)))) = new ++ v_log (e_v e)
+    /\ Forall (fun ev => match ev with
+                         | EvFunc _ l _ => exists l2 b2 v2, reaches rs (c_sep c) (exec_start c e) (l2, b2, v2)
+                                             /\ l = eff_lang l2 (v_st v2) /\ lang_follows l (v_st v2)
+                         | EvRender _ _ _ => False
+                         | _ => True end) new.
+Proof.
+  intros Hne. pose proof (eng_exec_inner_run fuel rs c e Hne) as H. unfold exec_start in *. cbv zeta in H.
+  set (v0 := vset_st (e_v e) (set_code (v_st (e_v e)) [])) in *.
+  assert (Hi : lang_inv (s_lang (v_st (e_v e))) (v_st v0)) by (right; left; reflexivity).
+  destruct (run_funcs_lang_lemma rs (c_sep c) fuel _ (s_code (v_st (e_v e))) v0 Hi) as [new [E F]].
+  destruct (run fuel rs (c_sep c) _ _ v0) as [[v1 b] s]. destruct H as [Hl _]. cbn [fst] in E.
+  exists new. split; [rewrite Hl, E; reflexivity|exact F].
+Qed.
+
+(* ---- persistence ---------------------------------------------------------------------- *)
+Lemma snap_of_lang st ca : s_lang (fst (snap_of st ca)) = s_lang st.
+Proof. reflexivity. Qed.
+
+Lemma new_engine_resumes_lang c st ca w lg :
+  s_lang (v_st (e_v (new_engine c (Some (st, ca)) w lg))) = s_lang st.
+Proof. reflexivity. Qed.
+
+Lemma eng_finish_lang e sn : eng_finish e = Some sn -> s_lang (fst sn) = s_lang (v_st (e_v e)).
+Proof. unfold eng_finish. destruct (e_initd e); [|discriminate]. intros H. injection H as <-. reflexivity. Qed.
+
+(* the configured language only matters for a session that does not exist yet *)
+Definition cfg_set_lang (c : config) (l : bytes) : config :=
+  mkCfg (c_out c) (c_root c) (c_flagcount c) (c_cachesize c) l (c_sep c) (c_reset_empty c) (c_first c).
+
+Lemma eng_flush_cfg_lang fuel rs c l e : eng_flush fuel rs (cfg_set_lang c l) e = eng_flush fuel rs c e.
+Proof. destruct c. reflexivity. Qed.
+Lemma run_first_cfg_lang fuel c l lang e : run_first fuel (cfg_set_lang c l) lang e = run_first fuel c lang e.
+Proof. destruct c. reflexivity. Qed.
+Lemma eng_init_cfg_lang fuel rs c l e input : eng_init fuel rs (cfg_set_lang c l) e input = eng_init fuel rs c e input.
+Proof. reflexivity. Qed.
+Lemma eng_exec_cfg_lang fuel rs c l e input : eng_exec fuel rs (cfg_set_lang c l) e input = eng_exec fuel rs c e input.
+Proof. reflexivity. Qed.
+
+Lemma request_persisted_ignores_cfg_lang fuel rs c l p input sn :
+  pw_store p = Some sn ->
+  request_persisted fuel rs (cfg_set_lang c l) p input = request_persisted fuel rs c p input.
+Proof.
+  intros Hs. unfold request_persisted. rewrite Hs. cbv zeta.
+  assert (En : new_engine (cfg_set_lang c l) (Some sn) (pw_w p) (pw_log p) = new_engine c (Some sn) (pw_w p) (pw_log p))
+    by (destruct c; reflexivity).
+  rewrite En, eng_exec_cfg_lang.
+  destruct (eng_exec fuel rs c _ input) as [[e1 cont] s].
+  destruct s; try reflexivity; rewrite eng_flush_cfg_lang; reflexivity.
+Qed.
+
+(* what a persisted request stores is the language the session has after Flush, and the next
+   request's engine starts from it *)
+Lemma request_persisted_store_lang fuel rs c p input :
+  let e := new_engine c (pw_store p) (pw_w p) (pw_log p) in
+  let '(e1, cont, s) := eng_exec fuel rs c e input in
+  match s with
+  | SPanic _ | SFuel => True
+  | _ =>
+    let '(e2, out, f) := eng_flush fuel rs c e1 in
+    match f with
+    | FPanic _ | FFuel => True
+    | _ => e_initd e2 = true ->
+           exists st' ca', pw_store (fst (request_persisted fuel rs c p input)) = Some (st', ca')
+                           /\ s_lang st' = s_lang (v_st (e_v e2))
+    end
+  end.
+Proof.
+  cbv zeta. unfold request_persisted.
+  destruct (eng_exec fuel rs c _ input) as [[e1 cont] s].
+  destruct s; try exact I;
+    (destruct (eng_flush fuel rs c e1) as [[e2 out] f]; destruct f; try exact I;
+     intros Hi; unfold eng_finish; rewrite Hi; cbn [fst pw_store];
+     exists (set_input_raw (v_st (e_v e2)) None), (v_ca (e_v e2)); (split; reflexivity)).
+Qed.
+
+(* ---- fallback to the default entry ------------------------------------------------------- *)
+Lemma lookup_lang_translated tbl key l v :
+  alookup (key ++ us ++ l) tbl = Some v -> lookup_lang tbl key (Some l) = Some v.
+Proof. unfold lookup_lang. intros ->. reflexivity. Qed.
+Lemma lookup_lang_default tbl key l :
+  alookup (key ++ us ++ l) tbl = None -> lookup_lang tbl key (Some l) = alookup key tbl.
+Proof. unfold lookup_lang. intros ->. reflexivity. Qed.
+Lemma lookup_lang_none tbl key : lookup_lang tbl key None = alookup key tbl.
+Proof. reflexivity. Qed.
+
+Lemma fallback_lemma a l :
+  (* templates *)
+  (forall sym t, alookup (sym ++ us ++ l) (a_tpl a) = Some t -> rs_tpl (app_rsrc a) (Some l) sym = Ok t)
+  /\ (forall sym t, alookup (sym ++ us ++ l) (a_tpl a) = None -> alookup sym (a_tpl a) = Some t ->
+        rs_tpl (app_rsrc a) (Some l) sym = Ok t)
+  /\ (forall sym, alookup (sym ++ us ++ l) (a_tpl a) = None -> alookup sym (a_tpl a) = None ->
+        rs_tpl (app_rsrc a) (Some l) sym = Err ENotFound)
+  (* menu labels *)
+  /\ (forall title t, alookup ((title ++ menu_suffix) ++ us ++ l) (a_menu a) = Some t -> rs_menu (app_rsrc a) (Some l) title = Ok t)
+  /\ (forall title t, alookup ((title ++ menu_suffix) ++ us ++ l) (a_menu a) = None -> alookup (title ++ menu_suffix) (a_menu a) = Some t ->
+        rs_menu (app_rsrc a) (Some l) title = Ok t)
+  /\ (forall title, alookup ((title ++ menu_suffix) ++ us ++ l) (a_menu a) = None -> alookup (title ++ menu_suffix) (a_menu a) = None ->
+        rs_menu (app_rsrc a) (Some l) title = Ok title).
+Proof.
+  unfold app_rsrc. cbn [rs_tpl rs_menu]. unfold lookup_lang.
+  repeat split; intros; repeat match goal with H : alookup _ _ = _ |- _ => rewrite H; clear H end; reflexivity.
+Qed.
+
+(* ---- an unknown code ----------------------------------------------------------------------- *)
+Lemma invalid_code_keeps_language_lemma (lk : bytes -> option bytes) st code :
+  code <> [] -> lk code = None -> st_set_language lk st code = st.
+Proof.
+  intros Hne Hl. unfold st_set_language. rewrite Hl. destruct code; [congruence|reflexivity].
+Qed.
+
+Lemma valid_code_sets_language_lemma (lk : bytes -> option bytes) st code c3 :
+  lk code = Some c3 -> s_lang (st_set_language lk st code) = Some c3.
+Proof. intros Hl. unfold st_set_language. rewrite Hl. destruct code; reflexivity. Qed.
+
+(* the empty code: the language is RESET, for every lookup function that does not resolve "" *)
+Lemma empty_code_resets_language_lemma (lk : bytes -> option bytes) st :
+  lk [] = None -> s_lang (st_set_language lk st []) = None.
+Proof. intros Hl. unfold st_set_language. rewrite Hl. reflexivity. Qed.
+
+Lemma lang_lookup_empty : lang_lookup [] = None.
+Proof. vm_compute. reflexivity. Qed.
+
+(* at instruction level: a function result with LANG and an unknown non-empty code *)
+Lemma refresh_invalid_code_lemma rs lang key v v' content :
+  refresh rs lang key v = (v', content, SOk) ->
+  content <> [] -> lang_lookup content = None -> s_lang (v_st v') = s_lang (v_st v).
+Proof.
+  intros H Hne Hl. rewrite (refresh_switch _ _ _ _ _ _ H). destruct (getf (v_st v') FLAG_LANG); [|reflexivity].
+  unfold new_lang. rewrite Hl. destruct content; [congruence|reflexivity].
+Qed.
+
+Lemma refresh_valid_code_lemma rs lang key v v' content c3 :
+  refresh rs lang key v = (v', content, SOk) ->
+  getf (v_st v') FLAG_LANG = true -> lang_lookup content = Some c3 -> s_lang (v_st v') = Some c3.
+Proof.
+  intros H Hf Hl. rewrite (refresh_switch _ _ _ _ _ _ H), Hf. unfold new_lang. rewrite Hl. reflexivity.
+Qed.
+
+(* ---- the configured language --------------------------------------------------------------- *)
+Lemma getf_setf_same s i : (N.to_nat i < List.length (s_flags s))%nat -> getf (setf s i) i = true.
+Proof. intros H. unfold getf, setf. cbn [s_flags set_flags]. apply nth_set_nth_bit_same. exact H. Qed.
+
+Lemma falses_length n : List.length (falses n) = n.
+Proof. induction n; cbn [falses List.length]; auto. Qed.
+
+Lemma config_language_lemma c l3 :
+  1 <= to_byte_size (w32 (c_flagcount c + 8)) ->
+  lang_lookup (c_lang c) = Some l3 ->
+  s_lang (fresh_state c) = Some l3 /\ getf (fresh_state c) FLAG_LANG = true
+  /\ forall w lg, s_lang (v_st (e_v (new_engine c None w lg))) = Some l3.
+Proof.
+  intros Hb Hl. unfold fresh_state.
+  assert (E : s_lang (st_set_language lang_lookup (new_state (c_flagcount c)) (c_lang c)) = Some l3)
+    by (apply valid_code_sets_language_lemma; exact Hl).
+  rewrite E. split; [exact E|]. split.
+  - apply getf_setf_same. rewrite st_set_language_flags. unfold new_state. cbn [s_flags].
+    rewrite falses_length. unfold FLAG_LANG. lia.
+  - intros w lg. unfold new_engine, fresh_state. rewrite E. cbn [e_v v_st]. exact E.
+Qed.
+
+Lemma byte_size_small n : n <= 2032 -> 1 <= to_byte_size (w32 (n + 8)).
+Proof.
+  intros H. unfold to_byte_size, w32, w8. rewrite (N.mod_small (n + 8)) by lia.
+  destruct (n + 8 =? 0) eqn:E0; [lia|].
+  set (m := n + 8) in *. assert (Hm : 8 <= m <= 2040) by lia.
+  pose proof (N.mod_lt m 8 ltac:(lia)) as Hr. pose proof (N.div_mod m 8 ltac:(lia)) as Hd.
+  destruct (m mod 8 =? 0) eqn:E8.
+  - rewrite N.add_0_r, (N.mod_small m) by lia.
+    assert (1 <= m / 8 <= 255) by (split; [apply N.div_le_lower_bound; lia|apply N.lt_succ_r; apply N.div_lt_upper_bound; lia]).
+    rewrite N.mod_small by lia. lia.
+  - rewrite (N.mod_small (m + _)) by lia.
+    assert (1 <= (m + (8 - m mod 8)) / 8 <= 255) by (split; [apply N.div_le_lower_bound; lia|apply N.lt_succ_r; apply N.div_lt_upper_bound; lia]).
+    rewrite N.mod_small by lia. lia.
+Qed.
+
+(* ================================================================================== *)
+(* Part 8 — C05 at instruction level: what one instruction can do to a live symbol    *)
+(* ================================================================================== *)
+
+Lemma move_cache_cases t st ca st' ca' sym r k n val :
+  nav_inv st ca -> lives ca k = Some (n, val) -> apply_target t st ca = (st', ca', sym, r) ->
+  lives ca' k = Some (n, val) \/ (lives ca' k = None /\ len (s_path st') < n).
+Proof.
+  intros Hi Hl Ha. destruct (N.le_gt_cases n (len (s_path st'))) as [Hle|Hgt].
+  - left. eapply kept_by_step; eassumption.
+  - right. split; [|lia]. eapply gone_after_ascent_step; eassumption.
+Qed.
+
+Lemma top_index_nav st ca : nav_inv st ca -> top_index ca = len (s_path st).
+Proof. unfold nav_inv, top_index, cache_levels. lia. Qed.
+
+(* a live symbol k (scope n, value val) after ONE instruction: untouched; or replaced in place,
+   by RELOAD k only; or gone — only by a move that ends above scope n, or by CROAK *)
+Lemma exec_instr_symbol_lemma rs sep lang i b v v' b' s k n val :
+  nav_inv (v_st v) (v_ca v) -> lives (v_ca v) k = Some (n, val) ->
+  exec_instr rs sep lang i b v = (v', b', s) ->
+  lives (v_ca v') k = Some (n, val)
+  \/ (i = IReload k /\ exists val', lives (v_ca v') k = Some (n, val'))
+  \/ (lives (v_ca v') k = None
+      /\ ((exists sig mode, i = ICroak sig mode) \/ len (s_path (v_st v')) < n)).
+Proof.
+  intros Hi Hl.
+  destruct i as [|sym sig mode|sig mode|sym sz|sym|sym|sym| |dest sel| |title sel|title sel|title sel]; cbn [exec_instr]; intros H;
+    try (injection H as <- _ _; left; exact Hl).
+  - (* CATCH *)
+    unfold run_catch in H. destruct (match_flag (v_st v) sig mode) as [[|]| |]; try (injection H as <- _ _; left; exact Hl).
+    destruct (apply_target sym (v_st v) (v_ca v)) as [[[st' ca'] nsym] s1] eqn:Ha.
+    assert (Hc : lives ca' k = Some (n, val) \/ (lives ca' k = None /\ len (s_path st') < n))
+      by (eapply move_cache_cases; eassumption).
+    assert (Hfin : forall vx, v_ca vx = ca' -> v_st vx = st' ->
+              lives (v_ca vx) k = Some (n, val)
+              \/ (ICatch sym sig mode = IReload k /\ exists val', lives (v_ca vx) k = Some (n, val'))
+              \/ (lives (v_ca vx) k = None /\ ((exists sig0 mode0, ICatch sym sig mode = ICroak sig0 mode0) \/ len (s_path (v_st vx)) < n))).
+    { intros vx -> ->. destruct Hc as [Hc|[Hc Hlt]]; [left; exact Hc|right; right; split; [exact Hc|right; exact Hlt]]. }
+    destruct s1; try (injection H as <- _ _; apply Hfin; reflexivity).
+    unfold fetch_code in H. destruct (rs_code rs nsym); destruct (rs_observed rs); injection H as <- _ _; apply Hfin; reflexivity.
+  - (* CROAK *)
+    unfold run_croak in H. destruct (match_flag (v_st v) sig mode) as [[|]| |]; try (injection H as <- _ _; left; exact Hl).
+    injection H as <- _ _. cbn [v_ca vset_ca vset_pg].
+    destruct (lives (cache_reset (v_ca v)) k) as [[n' val']|] eqn:Hr.
+    + left. destruct (n =? 0) eqn:E0.
+      * apply N.eqb_eq in E0. subst n. rewrite (lives_reset0 _ _ _ Hl) in Hr. congruence.
+      * exfalso. unfold lives, cache_reset in *. destruct (c_frames (v_ca v)) as [|f0 fs] eqn:Hf; [rewrite Hf in Hr; discriminate|].
+        cbn [c_frames kview map first_some] in *. destruct (alookup k f0); [injection Hl as <- _; discriminate|discriminate].
+    + right; right. split; [reflexivity|left; eauto].
+  - (* LOAD *)
+    unfold run_load in H. destruct (cache_get (v_ca v) sym) eqn:Hg; try (injection H as <- _ _; left; exact Hl).
+    destruct (refresh rs lang sym v) as [[v1 content] s1] eqn:Hr. destruct (refresh_frame _ _ _ _ _ _ _ Hr) as [Hca _].
+    destruct s1; try (injection H as <- _ _; left; rewrite Hca; exact Hl).
+    destruct (cache_add (v_ca v1) sym content (w16 sz)) as [ca'|e2|p2] eqn:Ha.
+    + injection H as <- _ _. cbn [v_ca vset_ca]. left.
+      destruct (cache_add_ok _ _ _ _ _ Ha) as [Hn [_ [_ [_ [_ [_ Hoth]]]]]]. rewrite Hca in *.
+      destruct (bytes_eqb k sym) eqn:E; [apply beqb_true in E; subst; congruence|].
+      apply beqb_false in E. destruct (Hoth k E) as [-> _]. exact Hl.
+    + destruct e2; injection H as <- _ _; left; rewrite Hca; exact Hl.
+    + injection H as <- _ _. left. rewrite Hca. exact Hl.
+  - (* RELOAD *)
+    unfold run_reload in H.
+    destruct (refresh rs lang sym v) as [[v1 content] s1] eqn:Hr. destruct (refresh_frame _ _ _ _ _ _ _ Hr) as [Hca _].
+    destruct s1; try (injection H as <- _ _; left; rewrite Hca; exact Hl).
+    rewrite Hca in H. destruct (cache_update_raw (v_ca v) sym content) as [ca' oe] eqn:Hu.
+    assert (Hc : lives ca' k = Some (n, val) \/ (IReload sym = IReload k /\ exists val', lives ca' k = Some (n, val'))).
+    { destruct (bytes_eqb sym k) eqn:E.
+      - apply beqb_true in E. subst sym. destruct oe as [er|].
+        + left. unfold cache_update_raw in Hu.
+          destruct ((0 <? _) && _); [injection Hu as <- _; exact Hl|].
+          rewrite frame_of_lives, Hl in Hu. cbn [option_map fst] in Hu. cbv zeta in Hu. cbn [c_size c_use c_frames c_sizes c_last] in Hu.
+          destruct ((check_capacity _ _ content =? 0) && (0 <? len content)); [|discriminate].
+          injection Hu as <- _. unfold lives in *. cbn [c_frames].
+          destruct (first_some_nth _ _ _ _ Hl) as [m [Hn [Hnth _]]].
+          assert (Hm : N.to_nat n = m) by lia. rewrite Hm.
+          assert (Hnth2 : nth_error (kview k (update_nth m (aset k []) (c_frames (v_ca v)))) m = Some (Some [])).
+          { rewrite (kview_update_same k m [] _ val Hnth). clear - Hnth. revert Hnth. generalize (kview k (c_frames (v_ca v))).
+            intros l. revert m. induction l as [|x l IH]; intros [|m] H; cbn [nth_error update_nth] in *; try discriminate; auto. }
+          rewrite (kview_update_same k m _ _ [] Hnth2), (kview_update_same k m [] _ val Hnth).
+          assert (Hrt : frame_get (c_frames (v_ca v)) n k = val).
+          { rewrite frame_get_view, Hm, Hnth. reflexivity. }
+          rewrite Hrt. eapply first_some_update; [|exact Hn]. eapply first_some_update; [exact Hl|exact Hn].
+        + right. split; [reflexivity|]. destruct (cache_update_raw_ok _ _ _ _ Hu) as [n' [old [H1 [H2 _]]]].
+          rewrite Hl in H1. injection H1 as <- <-. eauto.
+      - left. apply beqb_false in E. pose proof (lives_update_other (v_ca v) sym content k E) as Ho.
+        rewrite Hu in Ho. cbn [fst] in Ho. rewrite Ho. exact Hl. }
+    cbn [v_ca v_pg vset_ca] in H.
+    destruct (page_map ca' (v_pg v1) sym); injection H as <- _ _; cbn [v_ca vset_pg vset_ca];
+      (destruct Hc as [Hc|[Hc1 Hc2]]; [left; exact Hc|right; left; split; assumption]).
+  - (* MAP *)
+    unfold run_map in H. destruct (page_map _ _ _); injection H as <- _ _; left; exact Hl.
+  - (* MOVE *)
+    unfold run_move in H.
+    destruct (apply_target sym (v_st v) (v_ca v)) as [[[st' ca'] nsym] s1] eqn:Ha.
+    assert (Hc : lives ca' k = Some (n, val) \/ (lives ca' k = None /\ len (s_path st') < n))
+      by (eapply move_cache_cases; eassumption).
+    assert (Hfin : forall vx, v_ca vx = ca' -> v_st vx = st' ->
+              lives (v_ca vx) k = Some (n, val)
+              \/ (IMove sym = IReload k /\ exists val', lives (v_ca vx) k = Some (n, val'))
+              \/ (lives (v_ca vx) k = None /\ ((exists sig0 mode0, IMove sym = ICroak sig0 mode0) \/ len (s_path (v_st vx)) < n))).
+    { intros vx -> ->. destruct Hc as [Hc|[Hc Hlt]]; [left; exact Hc|right; right; split; [exact Hc|right; exact Hlt]]. }
+    destruct s1; try (injection H as <- _ _; apply Hfin; reflexivity).
+    unfold fetch_code in H. destruct (rs_code rs nsym); destruct (rs_observed rs); injection H as <- _ _; apply Hfin; reflexivity.
+  - (* INCMP *)
+    unfold run_incmp in H.
+    destruct (getf (v_st v) FLAG_INMATCH && getf (v_st v) FLAG_READIN); [injection H as <- _ _; left; exact Hl|].
+    cbn [v_st vset_st] in H.
+    destruct (s_input _) as [input|]; [|injection H as <- _ _; left; exact Hl].
+    destruct ((negb _ && _) || _); [|injection H as <- _ _; left; exact Hl].
+    destruct (apply_target dest _ _) as [[[st' ca'] nsym] s1] eqn:Ha. cbn [v_ca vset_st] in *.
+    assert (Hi' : nav_inv (resetf (setf (if getf (v_st v) FLAG_INMATCH then v_st v else setf (v_st v) FLAG_READIN) FLAG_INMATCH) FLAG_READIN) (v_ca v)).
+    { unfold nav_inv in *. cbn [s_path resetf setf set_flags]. destruct (getf (v_st v) FLAG_INMATCH); exact Hi. }
+    assert (Hc : lives ca' k = Some (n, val) \/ (lives ca' k = None /\ len (s_path st') < n))
+      by (eapply move_cache_cases; eassumption).
+    assert (Hfin : forall vx, v_ca vx = ca' -> s_path (v_st vx) = s_path st' ->
+              lives (v_ca vx) k = Some (n, val)
+              \/ (IInCmp dest sel = IReload k /\ exists val', lives (v_ca vx) k = Some (n, val'))
+              \/ (lives (v_ca vx) k = None /\ ((exists sig0 mode0, IInCmp dest sel = ICroak sig0 mode0) \/ len (s_path (v_st vx)) < n))).
+    { intros vx -> ->. destruct Hc as [Hc|[Hc Hlt]]; [left; exact Hc|right; right; split; [exact Hc|right; exact Hlt]]. }
+    destruct s1 as [|e m|p|].
+    + unfold fetch_code in H. destruct (rs_code rs nsym); destruct (rs_observed rs); injection H as <- _ _; apply Hfin; reflexivity.
+    + destruct e; injection H as <- _ _; apply Hfin; reflexivity.
+    + injection H as <- _ _. apply Hfin; reflexivity.
+    + injection H as <- _ _. apply Hfin; reflexivity.
+Qed.
+
+(* after the ascent the next LOAD calls the function again *)
+Lemma reload_after_return_lemma ts st ca st2 ca2 log k n val rs lang sz b v v' b' s :
+  nav_inv st ca -> lives ca k = Some (n, val) ->
+  nav_run st ca ts = (st2, ca2, log) -> len (s_path st2) < n ->
+  v_ca v = ca2 -> has_func rs k = true ->
+  run_load rs lang k sz b v = (v', b', s) ->
+  v_log v' = EvFunc k lang (s_input (v_st v)) :: v_log v
+  /\ v_w v' = aset k (calls k v + 1) (v_w v).
+Proof.
+  intros Hi Hl Hr Hlen Hca Hf H.
+  pose proof (gone_after_ascent_lemma _ _ _ _ _ _ _ _ _ Hi Hl Hr Hlen) as Hg. rewrite <- Hca in Hg.
+  destruct (load_stores_lemma _ _ _ _ _ _ _ _ _ _ Hg Hf H) as [_ [H1 [H2 _]]]. auto.
+Qed.
+
+(* ================================================================================== *)
+(* Part 9 — grouped statements for the property files                                 *)
+(* ================================================================================== *)
+
+Lemma map_until_next_move_lemma :
+  (* MAP puts the value Get returns into the page map; nothing else of the map changes *)
+  (forall c pg k pg', page_map c pg k = Ok pg' ->
+     exists val, cache_get c k = Ok val /\ p_map pg' = aset k val (p_map pg))
+  (* Page.Reset and Vm.Reset empty it *)
+  /\ (forall pg, p_map (page_reset pg) = [])
+  /\ (forall sep pg, p_map (vm_reset sep pg) = [])
+  (* every successful MOVE empties it; a failed one leaves the page alone *)
+  /\ (forall rs sep sym b v v' b' s, run_move rs sep sym b v = (v', b', s) ->
+        (s = SOk -> p_map (v_pg v') = []) /\ (s <> SOk -> v_pg v' = v_pg v))
+  (* INCMP: not fired, page untouched; fired (the move is logged), emptied *)
+  /\ (forall rs sep dest sel b v v' b' s, run_incmp rs sep dest sel b v = (v', b', s) ->
+        (v_pg v' = v_pg v /\ (v_log v' = v_log v \/ v_log v' = EvInCmp dest sel false :: v_log v))
+        \/ (p_map (v_pg v') = []
+            /\ exists pre nsym, v_log v' = pre ++ EvMove 1 dest nsym :: EvInCmp dest sel true :: v_log v))
+  (* a matching CROAK empties it *)
+  /\ (forall sep sig mode b v v' b' s, run_croak sep sig mode b v = (v', b', s) ->
+        v_pg v' = v_pg v \/ p_map (v_pg v') = [])
+  (* the first instruction after a HALT starts from an empty map *)
+  /\ (forall v, getf (v_st v) FLAG_WAIT = true -> p_map (v_pg (run_prelude v)) = [])
+  /\ (forall v, getf (v_st v) FLAG_WAIT = false -> v_pg (run_prelude v) = v_pg v)
+  (* any instruction: emptied, kept, or extended by the one symbol MAP / RELOAD names *)
+  /\ (forall rs sep lang i b v v' b' s, exec_instr rs sep lang i b v = (v', b', s) ->
+        p_map (v_pg v') = [] \/ p_map (v_pg v') = p_map (v_pg v)
+        \/ exists k val, (i = IMap k \/ i = IReload k) /\ cache_get (v_ca v') k = Ok val
+                         /\ p_map (v_pg v') = aset k val (p_map (v_pg v))).
+Proof.
+  split. { intros c pg k pg' H. destruct (page_map_ok _ _ _ _ H) as [val [l [Hg [_ [Hm _]]]]]. eauto. }
+  split; [reflexivity|]. split; [reflexivity|].
+  split. { intros rs sep sym b v v' b' s H. destruct (run_move_page _ _ _ _ _ _ _ _ H) as [H1 H2]. split; [intro E; apply (H1 E)|exact H2]. }
+  split. { intros rs sep dest sel b v v' b' s H. destruct (run_incmp_page _ _ _ _ _ _ _ _ _ H) as [H1|[E H1]]; [left; exact H1|right]. rewrite E. auto. }
+  split. { intros sep sig mode b v v' b' s H. destruct (run_croak_page _ _ _ _ _ _ _ _ H) as [E|E]; [left; exact E|right; rewrite E; reflexivity]. }
+  split; [intros v H; apply (prelude_resume_clears v H)|].
+  split; [exact prelude_no_resume|]. exact exec_instr_map_lemma.
+Qed.
+
+Lemma reload_cache_lemma :
+  (* accepted *)
+  (forall c k v c', cache_update_raw c k v = (c', None) ->
+     exists n old, lives c k = Some (n, old) /\ lives c' k = Some (n, v)
+       /\ cache_levels c' = cache_levels c /\ c_sizes c' = c_sizes c
+       /\ (forall l, cache_reserved c k = Ok l -> 0 < l -> len v <= l)
+       /\ (forall k2, k2 <> k -> lives c' k2 = lives c k2))
+  (* the empty string is accepted for every live symbol *)
+  /\ (forall c k n old, lives c k = Some (n, old) -> exists c', cache_update_raw c k [] = (c', None))
+  (* over the limit: refused for every length, cache unchanged *)
+  /\ (forall c k v l, cache_reserved c k = Ok l -> 0 < l -> l < len v -> cache_update_raw c k v = (c, Some EGen))
+  (* any refusal (also over capacity, after the blank-and-restore): cache unchanged *)
+  /\ (forall c k v c' e, CInv c -> len v + c_size c < 4294967296 -> cache_update_raw c k v = (c', Some e) -> c' = c).
+Proof.
+  split.
+  { intros c k v c' H. destruct (cache_update_raw_ok _ _ _ _ H) as [n [old [H1 [H2 [H3 [H4 [_ [H6 H7]]]]]]]]. exists n, old. auto 10. }
+  split; [exact cache_update_raw_empty|]. split; [exact cache_update_raw_over_limit|exact cache_update_raw_failed].
+Qed.
+
+(* ---- iterating the step function: computable witnesses for `reaches` ----------------------- *)
+Fixpoint iter_step (n : nat) (rs : rsrc) (sep : bytes) (c : conf) : option conf :=
+  match n with
+  | O => Some c
+  | S n' =>
+    let '(lang, b, v) := c in
+    match run_step rs sep lang b v with
+    | Next l1 b1 v1 => iter_step n' rs sep (l1, b1, v1)
+    | Done _ => None
+    end
+  end.
+
+Lemma iter_step_reaches n : forall rs sep c c', iter_step n rs sep c = Some c' -> reaches rs sep c c'.
+Proof.
+  induction n as [|n IH]; intros rs sep c c' H; cbn [iter_step] in H.
+  - injection H as <-. apply reach_refl.
+  - destruct c as [[lang b] v]. destruct (run_step rs sep lang b v) as [r|l1 b1 v1] eqn:Hs; [discriminate|].
+    eapply reach_step; [exact Hs|apply IH; exact H].
+Qed.
+
+(* ---- example applications ------------------------------------------------------------------ *)
+Definition ex_fr (c : string) (set : list N) : fres := mkFres (s2b c) false 0 set [] false.
+Definition ex_cfg : config := mkCfg 0 [] 2 0 [] [] false None.
+Definition ex_catch_node : bytes * bytes := (s2b "_catch", encode_prog [IHalt; IInCmp (s2b "_") (s2b "*")]).
+Definition ex_fuel : nat := 200.
+
+(* long-lived engine over an input history: final engine, outputs *)
+Fixpoint ex_long (rs : rsrc) (c : config) (e : engine) (ins : list bytes) : engine * list bytes :=
+  match ins with
+  | [] => (e, [])
+  | i :: r => let '(e', resp) := request_long ex_fuel rs c e i in
+              let '(e2, outs) := ex_long rs c e' r in (e2, r_out resp :: outs)
+  end.
+(* one engine per request over a store *)
+Fixpoint ex_pers (rs : rsrc) (c : config) (p : pworld) (ins : list bytes) : pworld * list bytes :=
+  match ins with
+  | [] => (p, [])
+  | i :: r => let '(p', resp) := request_persisted ex_fuel rs c p i in
+              let '(p2, outs) := ex_pers rs c p' r in (p2, r_out resp :: outs)
+  end.
+Definition ex_calls (l : list ev) : list ev :=
+  rev (filter (fun e => match e with EvFunc _ _ _ | EvRender _ _ _ => true | _ => false end) l).
+Definition ex_e0 (c : config) : engine := new_engine c None [] [].
+Definition ex_p0 : pworld := mkPw None [] [] false.
+
+(* C05: root -> foo (LOAD aa twice, MAP) -> bar (LOAD aa, MAP); functions answers one, two, three *)
+Definition ex_app_scope : app := mkApp
+  [ (s2b "root", encode_prog [IHalt; IInCmp (s2b "foo") (s2b "1")]);
+    (s2b "foo", encode_prog [ILoad (s2b "aa") 5; ILoad (s2b "aa") 5; IMap (s2b "aa"); IHalt;
+                             IInCmp (s2b "_") (s2b "0"); IInCmp (s2b "bar") (s2b "2")]);
+    (s2b "bar", encode_prog [ILoad (s2b "aa") 5; IMap (s2b "aa"); IHalt; IInCmp (s2b "_") (s2b "0")]);
+    ex_catch_node ]
+  [ (s2b "root", s2b "root"); (s2b "foo", s2b "foo {{.aa}}"); (s2b "bar", s2b "bar {{.aa}}"); (s2b "_catch", s2b "catch") ]
+  []
+  [ (s2b "aa", [ex_fr "one" []; ex_fr "two" []; ex_fr "three" []]) ].
+
+(* C05: RELOAD with a second answer `second` under limit 5 *)
+Definition ex_app_reload (second : bytes) : app := mkApp
+  [ (s2b "root", encode_prog [ILoad (s2b "aa") 5; IReload (s2b "aa"); IHalt; IInCmp (s2b "_") (s2b "0")]); ex_catch_node ]
+  [ (s2b "root", s2b "root [{{.aa}}]"); (s2b "_catch", s2b "catch") ]
+  []
+  [ (s2b "aa", [ex_fr "one" []; mkFres second false 0 [] [] false]) ].
+
+(* C05: the node foo maps aa and leaves upwards, by `leave`; root (entered through CATCH foo 9 0,
+   flag 9 being set by aa) shows {{.aa}} without mapping it *)
+Definition ex_app_leave (leave : instr) : app := mkApp
+  [ (s2b "root", encode_prog [ICatch (s2b "foo") 9 false; IHalt; IInCmp (s2b "foo") (s2b "1")]);
+    (s2b "foo", encode_prog [ILoad (s2b "aa") 5; IMap (s2b "aa"); leave]);
+    ex_catch_node ]
+  [ (s2b "root", s2b "root {{.aa}}"); (s2b "foo", s2b "foo {{.aa}}"); (s2b "_catch", s2b "catch") ]
+  []
+  [ (s2b "aa", [ex_fr "one" [9]]) ].
+
+(* C18: corpus case lang-empty (go/cmd/vh/engine.go) with one more function *)
+Definition ex_app_lang : app := mkApp
+  [ (s2b "root", encode_prog [ILoad (s2b "lang1") 0; IHalt; IInCmp (s2b "foo") (s2b "1")]);
+    (s2b "foo", encode_prog [IReload (s2b "lang1"); ILoad (s2b "other") 0; IHalt; IInCmp (s2b "_") (s2b "0")]);
+    ex_catch_node ]
+  [ (s2b "root", s2b "root"); (s2b "foo", s2b "foo"); (s2b "_catch", s2b "catch");
+    (s2b "root_nor", s2b "rot"); (s2b "foo_nor", s2b "fu") ]
+  [ (s2b "back_menu", s2b "back"); (s2b "back_menu_nor", s2b "tilbake") ]
+  [ (s2b "lang1", [ex_fr "nor" [7]; ex_fr "" [7]; ex_fr "xx" [7]]); (s2b "other", [ex_fr "o" []]) ].
+Definition ex_cfg1 : config := mkCfg 0 [] 1 0 [] [] false None.
+
+(* C18: switch, then a second function and a menu label in the same node; translations for a
+   subset only; `swa` entries that must not matter *)
+Definition ex_app_switch (swa_tpl swa_menu : bytes) : app := mkApp
+  [ (s2b "root", encode_prog [ILoad (s2b "lang1") 0; ILoad (s2b "other") 0; IMOut (s2b "go") (s2b "1");
+                              IMOut (s2b "stay") (s2b "2"); IHalt; IInCmp (s2b "foo") (s2b "1")]);
+    (s2b "foo", encode_prog [ILoad (s2b "third") 0; IHalt; IInCmp (s2b "_") (s2b "0")]);
+    ex_catch_node ]
+  [ (s2b "root", s2b "root"); (s2b "foo", s2b "foo"); (s2b "_catch", s2b "catch");
+    (s2b "root_nor", s2b "rot"); (s2b "root_swa", swa_tpl) ]
+  [ (s2b "go_menu", s2b "go on"); (s2b "go_menu_nor", s2b "videre"); (s2b "go_menu_swa", swa_menu) ]
+  [ (s2b "lang1", [ex_fr "no" [7]]); (s2b "other", [ex_fr "o" []]); (s2b "third", [ex_fr "t" []]) ].
+
+Lemma gone_after_pops_get m c k n v :
+  c_frames c <> [] -> lives c k = Some (n, v) -> cache_levels c <= n + N.of_nat m ->
+  cache_get (pops m c) k = Err EGen.
+Proof. intros. apply lives_none_iff. eapply gone_after_pops; eassumption. Qed.
+
+(* ---- C18 witnesses -------------------------------------------------------------------------- *)
+(* the machine after the first request of ex_app_lang (language nor selected, root shown), about
+   to execute foo's code: RELOAD lang1 answers "" with LANG *)
+Definition ex_lang_conf : conf :=
+  let '(e, _) := request_long ex_fuel (app_rsrc ex_app_lang) ex_cfg1 (ex_e0 ex_cfg1) [] in
+  (s_lang (v_st (e_v e)),
+   encode_prog [IReload (s2b "lang1"); ILoad (s2b "other") 0; IHalt],
+   vset_st (e_v e) (set_input_raw (v_st (e_v e)) (Some (s2b "1")))).
+
+(* K-C18-emptylang inside one run: the session is in nor, the run starts in nor; after the empty
+   result the session has NO language, and the next instruction still runs in nor *)
+Lemma emptylang_run_witness :
+  exists rs sep lang b v l' b' v',
+    lang = Some (s2b "nor") /\ s_lang (v_st v) = lang /\ lang_inv lang (v_st v)
+    /\ reaches rs sep (lang, b, v) (l', b', v')
+    /\ s_lang (v_st v') = None /\ eff_lang l' (v_st v') = Some (s2b "nor").
+Proof.
+  destruct ex_lang_conf as [[lang b] v] eqn:E.
+  exists (app_rsrc ex_app_lang), [], lang, b, v.
+  destruct (iter_step 1 (app_rsrc ex_app_lang) [] (lang, b, v)) as [[[l' b'] v']|] eqn:Hi.
+  - exists l', b', v'. rewrite <- E in Hi. 
+    assert (H1 : lang = Some (s2b "nor") /\ s_lang (v_st v) = lang).
+    { assert (Hx : (fst (fst ex_lang_conf), s_lang (v_st (snd ex_lang_conf))) = (Some (s2b "nor"), Some (s2b "nor"))) by (vm_compute; reflexivity).
+      rewrite E in Hx. cbn [fst snd] in Hx. injection Hx as -> ->. auto. }
+    destruct H1 as [H1 H2]. split; [exact H1|]. split; [exact H2|]. split; [right; left; symmetry; exact H2|].
+    split; [rewrite <- E; apply (iter_step_reaches 1); exact Hi|].
+    assert (Hy : option_map (fun c => (s_lang (v_st (snd c)), eff_lang (fst (fst c)) (v_st (snd c)))) (iter_step 1 (app_rsrc ex_app_lang) [] ex_lang_conf)
+                 = Some (None, Some (s2b "nor"))) by (vm_compute; reflexivity).
+    rewrite Hi in Hy. cbn [option_map fst snd] in Hy. injection Hy as -> ->. auto.
+  - exfalso. rewrite <- E in Hi.
+    assert (Hy : iter_step 1 (app_rsrc ex_app_lang) [] ex_lang_conf <> None) by (vm_compute; discriminate).
+    congruence.
+Qed.
+
+Lemma config_language_lemma2 c l3 :
+  c_flagcount c <= 2032 -> lang_lookup (c_lang c) = Some l3 ->
+  s_lang (fresh_state c) = Some l3 /\ getf (fresh_state c) FLAG_LANG = true
+  /\ forall w lg, s_lang (v_st (e_v (new_engine c None w lg))) = Some l3.
+Proof. intros H. apply config_language_lemma. apply byte_size_small. exact H. Qed.
+
+Lemma language_survives_lemma :
+  (forall st ca, s_lang (fst (snap_of st ca)) = s_lang st)
+  /\ (forall e sn, eng_finish e = Some sn -> s_lang (fst sn) = s_lang (v_st (e_v e)))
+  /\ (forall c st ca w lg, s_lang (v_st (e_v (new_engine c (Some (st, ca)) w lg))) = s_lang st).
+Proof. split; [exact snap_of_lang|]. split; [exact eng_finish_lang|exact new_engine_resumes_lang]. Qed.
+
+Lemma lookup_lang_lemma :
+  (forall tbl key l v, alookup (key ++ us ++ l) tbl = Some v -> lookup_lang tbl key (Some l) = Some v)
+  /\ (forall tbl key l, alookup (key ++ us ++ l) tbl = None -> lookup_lang tbl key (Some l) = alookup key tbl)
+  /\ (forall tbl key, lookup_lang tbl key None = alookup key tbl).
+Proof. split; [exact lookup_lang_translated|]. split; [exact lookup_lang_default|exact lookup_lang_none]. Qed.
+
+Lemma flush_noninterference_app fuel a a' c e :
+  app_agree_on (s_lang (v_st (e_v e))) a a' ->
+  eng_flush fuel (app_rsrc a) c e = eng_flush fuel (app_rsrc a') c e.
+Proof. intros H. apply eng_flush_noninterference. apply app_agree_rs. exact H. Qed.
+
+(* C18: no switching function; the language comes from the configuration *)
+Definition ex_cfg_lang (code : string) : config := mkCfg 0 [] 1 0 (s2b code) [] false None.
+Definition ex_app_plain : app := mkApp
+  [ (s2b "root", encode_prog [ILoad (s2b "other") 0; IMOut (s2b "go") (s2b "1"); IHalt; IInCmp (s2b "foo") (s2b "1")]);
+    (s2b "foo", encode_prog [IHalt; IInCmp (s2b "_") (s2b "0")]); ex_catch_node ]
+  [ (s2b "root", s2b "root"); (s2b "foo", s2b "foo"); (s2b "_catch", s2b "catch"); (s2b "root_nor", s2b "rot") ]
+  [ (s2b "go_menu", s2b "go on"); (s2b "go_menu_nor", s2b "videre") ]
+  [ (s2b "other", [ex_fr "o" []]) ].
